@@ -609,6 +609,14 @@ func directedCfgCases() []struct {
 		c.conf.Client["aa:bb:cc:dd:ee:ff"] = &pb.ClientConfig{Router: "192.168.1.1"}
 		c.conf.Client["AA-BB-CC-DD-EE-FF"] = &pb.ClientConfig{Router: "192.168.1.254"}
 	})
+	add("F5b-two-spellings-one-static", func(c *cfgCase) { // exactly one of the two carries an address
+		c.conf.Client["02:AA:BB:CC:DD:01"] = &pb.ClientConfig{Ip: "192.168.1.10"}
+		c.conf.Client["02-aa-bb-cc-dd-01"] = &pb.ClientConfig{Dns: []string{"1.1.1.1"}}
+	})
+	add("F5b-two-spellings-one-static-b", func(c *cfgCase) {
+		c.conf.Client["aabb.ccdd.ee01"] = &pb.ClientConfig{Router: "192.168.1.254"}
+		c.conf.Client["aa:bb:cc:dd:ee:01"] = &pb.ClientConfig{Ip: "192.168.1.11", Hostname: "h"}
+	})
 	add("F5b-three-spellings-dns", func(c *cfgCase) {
 		c.conf.Client["aa:bb:cc:dd:ee:ff"] = &pb.ClientConfig{Ip: "192.168.1.10"}
 		c.conf.Client["AA-BB-CC-DD-EE-FF"] = &pb.ClientConfig{Dns: []string{"1.1.1.1"}}
@@ -650,7 +658,7 @@ func emitC18(c *caseWriter, cc *cfgCase, kind string) {
 	abs := cc.abstract()
 	var flats []interface{}
 	seen := map[string]bool{}
-	for i := 0; i < 5; i++ {
+	for i := 0; i < 8; i++ {
 		o := cc.construct()
 		fl := o.flat()
 		flats = append(flats, fl)
